@@ -1,9 +1,16 @@
 package props
 
 import (
+	"context"
 	"fmt"
+	"sync"
 
+	"google.golang.org/grpc"
+	"google.golang.org/grpc/metadata"
+
+	"goatverif/bed"
 	"goatverif/core"
+	"goatverif/svc"
 )
 
 // C15: API-permitted concurrent use is free of data races (race detector build).
@@ -48,6 +55,7 @@ func c15Sources(tier string) []struct {
 		{"C19", len(c19List("quick")), pick(40, 40)},
 		{"C20", len(c20List("quick")), pick(93, 93)},
 		{"C05", len(c05List("quick")), pick(10, 38)},
+		{"concurrent-accessors", 64, pick(64, 64)},
 	}
 }
 
@@ -109,6 +117,8 @@ func c15Run(tier string, seed int64, idx int) *core.Result {
 		sub = c19Run(qs, seed, c.Index)
 	case "C20":
 		sub = c20Run(qs, seed, c.Index)
+	case "concurrent-accessors":
+		sub = c15Accessors(qs, seed, c.Index)
 	}
 	res := &core.Result{Verdict: core.Held, Sample: c, Sig: fmt.Sprintf("%+v", c), NonTrivial: c.GMP > 1, Retire: sub.Retire}
 	// only race reports (collected by the parent from the detector's log) count here; the
@@ -117,7 +127,7 @@ func c15Run(tier string, seed int64, idx int) *core.Result {
 	res.SetAdd("workloads", c.Source)
 	res.SetAdd("gomaxprocs", fmt.Sprint(c.GMP))
 	for k, v := range sub.Stats {
-		if len(k) > 5 && k[:5] == "hook:" {
+		if len(k) > 5 && k[:5] == "hook:" || k == "concurrent_accessor_streams" {
 			res.Stat(k, v)
 		}
 	}
@@ -132,12 +142,94 @@ func init() {
 		ID:    "C15",
 		Level: "exploration",
 		Race:  true,
-		Rule:  "the quick case lists of C01-C05, C07, C09-C11, C14, C16-C20 (unary and stream workloads with separate sender/receiver goroutines, Header/Trailer concurrent with sends, cancellations, Stop and transport failures concurrent with traffic, proxy and demux with up to 8 peers, HTTP cleaner) are re-run in a binary built with -race, GOMAXPROCS cycling over {1,2,4,16}, with the seeded yield/sleep plans at every hook point; every race-detector report with a goat frame in either stack is a violation (de-duplicated by innermost goat frames), a report without goat frames fails the run as a harness bug. evaluations = workload cases run under the detector; non-trivial = run on more than one OS thread; distinct = (workload, index, GOMAXPROCS).",
+		Rule:  "the quick case lists of C01-C05, C07, C09-C11, C14, C16-C20 (unary and stream workloads with separate sender/receiver goroutines, Header/Trailer concurrent with sends, cancellations, Stop and transport failures concurrent with traffic, proxy and demux with up to 8 peers, HTTP cleaner) plus a dedicated workload in which every accessor the API allows to run concurrently does so (handler goroutines SetHeader/SendHeader, SendMsg, SetTrailer, RecvMsg; caller goroutines Header, Recv, Send+CloseSend, Trailer; unary calls alongside) are re-run in a binary built with -race, GOMAXPROCS cycling over {1,2,4,16}, with the seeded yield/sleep plans at every hook point; every race-detector report with a goat frame in either stack is a violation (de-duplicated by innermost goat frames), a report without goat frames fails the run as a harness bug. evaluations = workload cases run under the detector; non-trivial = run on more than one OS thread; distinct = (workload, index, GOMAXPROCS).",
 		Plan:  func(tier string, seed int64) int { return len(c15List(tier)) },
 		Run:   c15Run,
 		RequiredStats: func(string) []string {
-			return []string{"workload_cases_under_race_detector", "hook:cs.recv.window", "hook:srv.writer.beforeWrite", "hook:proxy.forward", "hook:demux.handoff", "hook:http.deliver", "hook:mux.beforeDispatch"}
+			return []string{"workload_cases_under_race_detector", "hook:cs.recv.window", "hook:srv.writer.beforeWrite", "hook:proxy.forward", "hook:demux.handoff", "hook:http.deliver", "hook:mux.beforeDispatch", "concurrent_accessor_streams"}
 		},
 		Assumptions: []string{"the race detector only sees pairs of accesses that both executed within its history window; no report is not race freedom"},
 	})
+}
+
+// c15Accessors: every accessor the API allows to run concurrently does run concurrently, on both
+// sides of one bidi stream plus unary calls on the same connection: handler goroutines SetHeader /
+// SendHeader, SendMsg, SetTrailer and RecvMsg; caller goroutines Header, Recv, Send+CloseSend,
+// Context, then Trailer. No functional oracle: this workload exists for the race detector.
+func c15Accessors(tier string, seed int64, idx int) *core.Result {
+	res := &core.Result{Verdict: core.Held}
+	h := bed.NewHooks()
+	h.Jitter = uint64(seed)*41 + uint64(idx) + 1
+	h.Install()
+	b := bed.New(bed.Opts{Cap: idx % 3, Serialise: idx%2 == 0})
+	cc := b.Conns[0]
+	n := 2 + idx%3
+	for s := 0; s < n; s++ {
+		tag := fmt.Sprintf("acc%d-%d", idx, s)
+		b.Impl.SetStream(tag, func(t, k string, ss grpc.ServerStream) error {
+			var wg sync.WaitGroup
+			wg.Add(3)
+			go func() {
+				defer wg.Done()
+				ss.SetHeader(metadata.Pairs("h1", "v"))
+				ss.SendHeader(metadata.Pairs("h2", "v"))
+			}()
+			go func() {
+				defer wg.Done()
+				for i := 0; i < 3; i++ {
+					ss.SendMsg(&svc.BV{Value: []byte{byte(i)}})
+				}
+			}()
+			go func() { defer wg.Done(); ss.SetTrailer(metadata.Pairs("t1", "v")); grpc.SetTrailer(ss.Context(), metadata.Pairs("t2", "v")) }()
+			for {
+				var m svc.BV
+				if err := ss.RecvMsg(&m); err != nil {
+					break
+				}
+			}
+			wg.Wait()
+			return nil
+		})
+	}
+	var w Waiter
+	for s := 0; s < n; s++ {
+		tag := fmt.Sprintf("acc%d-%d", idx, s)
+		w.Add(1)
+		go func() {
+			defer w.Done()
+			st, err := svc.Open(context.Background(), cc, "bidi", tag, nil)
+			if err != nil {
+				return
+			}
+			var wg sync.WaitGroup
+			wg.Add(3)
+			go func() { defer wg.Done(); st.Header(); _ = st.Context().Err() }()
+			go func() {
+				defer wg.Done()
+				for i := 0; i < 3; i++ {
+					st.Send([]byte{byte(i)})
+				}
+				st.CloseSend()
+			}()
+			go func() {
+				defer wg.Done()
+				for {
+					if _, err := st.Recv(); err != nil {
+						break
+					}
+				}
+				st.Trailer()
+			}()
+			wg.Wait()
+		}()
+		w.Add(1)
+		go func() { defer w.Done(); svc.Invoke(context.Background(), cc, "u-"+tag, []byte("x")) }()
+	}
+	st, _ := settle(tier, func() bool { return w.Left() == 0 })
+	if st != "ok" {
+		res.Verdict, res.Note = core.Inconclusive, "concurrent-accessor workload did not finish: "+st
+	}
+	res.Stat("concurrent_accessor_streams", int64(n))
+	finish(tier, b, h, res)
+	return res
 }
